@@ -283,4 +283,18 @@ def hier_problems(case):
             if np.abs(r).max() > TOL_ROW * sc:
                 rec.add("hier:project_L2:orthogonality", "%s space: residual of the degree-%s monomial (%s) is not orthogonal to the space: "
                         "max |b - M u| = %.3g (scale %.3g)" % (kind, degs, fname, np.abs(r).max(), sc))
+    # data given in physical coordinates are the same data as their pull-back to the parameter domain
+    if geo is not None:
+        G = L.geo_map(gname, d, [a.ext for a in reversed(sp)])
+        gphys = (lambda x, y: 1.0 + 0.5 * x - 0.25 * y + 0.125 * x * y) if d == 2 else (lambda x: 1.0 + 0.5 * x)
+        gpull = lambda *xi: gphys(*G(*xi))
+        up = project("hier:project_L2", gphys, f_physical=True)
+        ub = project("hier:project_L2", gpull, f_physical=False)
+        if up is not None and ub is not None:
+            dv = up - ub
+            en = float(np.sqrt(max(dv @ (Mref @ dv), 0.0)) / max(np.sqrt(max(ub @ (Mref @ ub), 0.0)), 1e-300))
+            rec.note("hier/phys", en / (TOL_DIRECT * cond))
+            if en > TOL_DIRECT * cond:
+                rec.add("hier:project_L2:physical-vs-pullback", "%s space, geo=%s: f_physical=True and the pulled-back data give projections "
+                        "differing by %.3g in the energy norm" % (kind, gname, en))
     return rec
